@@ -280,6 +280,36 @@ def run(ctx, prop):
                     vals = sorted(v for (i_, m_), v in ops.items() if i_ == top) if ops and isinstance(next(iter(ops)), tuple) else sorted(ops.values())
                     if max(vals) != 16383:
                         oracle_fail.append({"case": {"id": case["id"]}, "failures": [{"where": "c-stub", "error": "largest id is not 0x3FFF", "max": max(vals)}]})
+    if mode == "ops":
+        # ---- the op-code a method HAS is the one its skeleton answers to: the compiled skeletons of
+        # all three backends (coverage corpus: 3-level hierarchy, optional methods left out by the
+        # implementor next to methods of the same shape) are called through every stub; for every op
+        # exactly the method of that op may be entered, and an op nobody implements enters nothing
+        from .. import benchlib as B
+        from .bench_props import split_padded
+        cov, _padded = split_padded(gen.coverage_case("C07-coverage"))
+        with C.Scratch() as tmp:
+            b, r, used = B.build_and_run(ctx, cov, os.path.join(tmp, "w"), langs=("c", "cpp", "rust"), valuations=1)
+            ctx.bump("evaluations")
+            if b["ok"]:
+                n_calls = 0
+                for a_ in B.analyse(ctx, cov, b, r):
+                    call = a_["call"]
+                    n_calls += 1
+                    mo = B.method_of(cov, call["iface"], call["method"])
+                    if a_["impl"] is not None and (a_["impl"].get("method") != call["method"] or a_["pc"].get("optional")):
+                        oracle_fail.append({"case": {"id": cov["id"], "call": call}, "failures": [
+                            {"where": f"{call['skel']}-skeleton dispatch", "error": "the op-code of one method entered the implementation of another "
+                             "(or of a method the implementor left out)", "op": mo[2] if mo else None, "entered": a_["impl"].get("method")}]})
+                    if a_["env"] is not None and mo and a_["env"]["op"] != mo[2]:
+                        oracle_fail.append({"case": {"id": cov["id"], "call": call}, "failures": [
+                            {"where": f"{call['stub']}-stub", "error": "the stub sent another op-code than the numbering prescribes", "expected": mo[2], "got": a_["env"]["op"]}]})
+                hist["dispatch_calls"] = n_calls
+            else:
+                hist["dispatch_calls"] = 0
+                oracle_fail.append({"case": {"id": cov["id"]}, "failures": [
+                    {"where": "compiled skeletons", "error": "the generated stubs and skeletons of the coverage corpus do not build, so no op-code "
+                     "reaches any method", "units": B.failed_units(b)[:2]}]})
     return finish(ctx, prop, gate, oracle_fail, disagree, samples, len(distinct), hist)
 
 
